@@ -116,3 +116,48 @@ theorem lookup_spec {exts : List Name} {dir : List Entry} {k n : Name} (h : look
   exact ⟨⟨e, he, rfl⟩, hp.1, hp.2⟩
 
 end Moclo.Dir
+
+namespace Moclo.Dir
+
+theorem rsplitDot_none_of_not_mem : ∀ (e : Name), dotC ∉ e → rsplitDot e = none
+  | [], _ => rfl
+  | c :: cs, h => by
+    have hc : c ≠ dotC := fun hh => h (by simp [hh])
+    have hcs : dotC ∉ cs := fun hh => h (List.mem_cons_of_mem _ hh)
+    unfold rsplitDot
+    rw [rsplitDot_none_of_not_mem cs hcs]
+    simp [hc]
+
+theorem rsplitDot_append : ∀ (k e : Name), dotC ∉ e → rsplitDot (k ++ dotC :: e) = some (k, e)
+  | [], e, h => by
+    show rsplitDot (dotC :: e) = some ([], e)
+    unfold rsplitDot
+    rw [rsplitDot_none_of_not_mem e h]
+    simp
+  | c :: k, e, h => by
+    show rsplitDot (c :: (k ++ dotC :: e)) = some (c :: k, e)
+    unfold rsplitDot
+    rw [rsplitDot_append k e h]
+
+/-- a name spelt `stem.ext` with a listed, dot-free extension, a non-empty stem that is not the single dot,
+and no `/`, is a plasmid file, and its key is the stem -/
+theorem key_of_plasmid_name {exts : List Name} {k e : Name} (he : e ∈ exts) (hd : dotC ∉ e) (hk : k ≠ [])
+    (hk1 : k ≠ [dotC]) (hs : slashC ∉ k ++ dotC :: e) : key exts (k ++ dotC :: e) = some k := by
+  have hsplit : splitExt (k ++ dotC :: e) = (k, dotC :: e) := by
+    unfold splitExt
+    have hnot : ¬ ((k ++ dotC :: e).head? = some dotC ∧ (k ++ dotC :: e).count dotC = 1) := by
+      rintro ⟨hh, hc⟩
+      cases k with
+      | nil => exact hk rfl
+      | cons c k' =>
+        simp only [List.cons_append, List.head?_cons, Option.some.injEq] at hh
+        subst hh
+        simp only [List.cons_append, List.count_cons_self, List.count_append] at hc
+        omega
+    rw [if_neg hnot, rsplitDot_append k e hd]
+    simp [hk1]
+  unfold key
+  rw [if_neg hs, hsplit]
+  simp [he]
+
+end Moclo.Dir
